@@ -46,7 +46,9 @@ def build(shim=True):
     exe = os.path.join(out, 'thpool_harness_%s_%d' % (tag, os.getpid()))
     san = 'address,undefined' if shim else 'thread'
     pre = ['-include', os.path.join(VERIF, 'harness', 'sched_shim.h')] if shim else []
-    rc, o, e = sh(_cc(san, pre + ['-DLIBMODULE_LOG_CTX=THPOOL', '-c', os.path.join(REPO, 'Lib/thpool/thpool.c'), '-o', obj]), timeout=600)
+    # shim mode: thpool.c gets the *instrumentation* of -fsanitize=thread (a call at every memory access);
+    # the __tsan_* entry points are the harness's own (scheduling point + access log), no TSan runtime is linked
+    rc, o, e = sh(_cc('thread,undefined' if shim else san, pre + ['-DLIBMODULE_LOG_CTX=THPOOL', '-c', os.path.join(REPO, 'Lib/thpool/thpool.c'), '-o', obj]), timeout=600)
     if rc != 0:
         return None, o + e
     rc, o2, e2 = sh(_cc(san, ([] if shim else ['-DC06_STRESS']) + ['-o', exe, os.path.join(VERIF, 'harness', 'thpool_harness.c'), obj]
@@ -95,20 +97,63 @@ def parse_cfg(line):
 # ------------------------------------------------------------------------------------------------
 # the property as a monitor over one recorded trace (independent of the Lean side)
 # ------------------------------------------------------------------------------------------------
+class _VC(dict):
+    def join(self, other):
+        for k, v in other.items():
+            if self.get(k, 0) < v:
+                self[k] = v
+
+
 def monitor(cfgline, out):
-    """-> [(clause, message)].  `out` = harness output lines of the schedule."""
+    """-> [(clause, message)].  `out` = harness output lines of the schedule.
+
+    Race freedom is judged the way a dynamic race detector does it: vector clocks over the recorded
+    schedule with synchronisation edges from mutex release->acquire, thread creation, thread exit->join,
+    and the harness's own spawn (after new) / join (before free) of the submitters; two accesses to the
+    same location (a field of the pool object, the task queue, the thread list), at least one a write,
+    by different threads and unordered by happens-before are a race.  C11 atomics are exempt."""
     c = parse_cfg(cfgline)
     v = []
-    owner = None
-    args = {}          # task -> arg it was submitted with
-    addret = {}        # task -> return code of its add
-    pending = {}       # submitter tid -> task of the add in progress
+    args, addret, pending = {}, {}, {}
     started, ended, runner = {}, set(), {}
     running = 0
     workers = set()
-    free_ret_seen = False
-    destroyed = False
-    saw_end = False
+    free_ret_seen = destroyed = saw_end = False
+    # happens-before
+    vc = {0: _VC({0: 1})}
+    lock_vc = _VC()
+    new_ret_vc = None
+    exit_vc = {}
+    sub_last = {}
+    last_w, reads = {}, {}
+    raced = set()
+
+    def clock(t):
+        if t not in vc:
+            vc[t] = _VC({t: 1})
+            if t not in workers and new_ret_vc is not None:
+                vc[t].join(new_ret_vc)          # submitters are spawned by thread 0 right after new returned
+        return vc[t]
+
+    def access(t, loc, write, k, what):
+        me = clock(t)
+        w = last_w.get(loc)
+        bad = None
+        if w and w[0] != t and me.get(w[0], 0) < w[1]:
+            bad = w
+        if write and not bad:
+            for rt, rc in reads.get(loc, {}).items():
+                if rt != t and me.get(rt, 0) < rc:
+                    bad = (rt, rc, 'read'); break
+        if bad and loc not in raced:
+            raced.add(loc)
+            v.append(('race', 'data race on %s: T%d %s it (event %d) concurrently with an access by T%d - no lock/create/join orders them'
+                      % (what, t, 'writes' if write else 'reads', k, bad[0])))
+        if write:
+            last_w[loc] = (t, me[t]); reads[loc] = {}
+        else:
+            reads.setdefault(loc, {})[t] = me[t]
+
     for k, ln in enumerate(out):
         if ln.startswith('cfg ') or ln.startswith('# '):
             continue
@@ -126,31 +171,54 @@ def monitor(cfgline, out):
         if len(t) < 2 or not t[0].startswith('T'):
             v.append(('fault', 'unparsable line %r' % ln)); return v
         tid, ev = int(t[0][1:]), t[1]
+        me = clock(tid)
+        if ev == '@':
+            continue
+        if ev == '.':
+            if t[2] != 'a':
+                access(tid, 'pool+' + t[3], t[2] == 'w', k, 'the pool field at offset ' + t[3])
+            continue
         if free_ret_seen and tid in workers and ev != 'exit':
             v.append(('after_free', 'pool thread T%d performs %r after free returned (event %d)' % (tid, ' '.join(t[1:]), k)))
-        if destroyed and tid in workers and ev != 'exit':
+        elif destroyed and tid in workers and ev != 'exit':
             v.append(('after_free', 'pool thread T%d performs %r after the pool primitives were destroyed (event %d)' % (tid, ' '.join(t[1:]), k)))
         if ev == 'lock' or ev == 'wake':
-            owner = tid
+            me.join(lock_vc)
         elif ev in ('unlock', 'wait'):
-            owner = None
+            lock_vc = _VC(me); me[tid] += 1
         elif ev == 'create':
-            workers.add(int(t[2][1:]))
+            j = int(t[2][1:])
+            workers.add(j)
+            vc[j] = _VC(me); vc[j][j] = 1; me[tid] += 1
             if len(workers) > c['threads']:
                 v.append(('max_threads', '%d pool threads created, max_threads is %d' % (len(workers), c['threads'])))
-        elif ev in ('enq', 'deq', 'qlen', 'tlen', 'tins'):
-            # race freedom: the shared queue / thread list are only touched under the pool lock
-            # (the main thread is alone while it runs new(); no submitter exists yet)
-            if tid != 0 and owner != tid:
-                v.append(('race', 'T%d accesses the shared %s (%s) without holding the pool lock (event %d)' % (
-                    tid, 'task queue' if ev[0] in 'eqd' and ev != 'tlen' and ev != 'tins' else 'thread list', ev, k)))
+        elif ev == 'exit':
+            exit_vc[tid] = _VC(me)
+        elif ev == 'join':
+            j = int(t[2][1:])
+            me.join(exit_vc.get(j, {}))
+            access(tid, 'threads', False, k, 'the thread list')
+        elif ev in ('enq', 'deq', 'qfree'):
+            access(tid, 'tasks', True, k, 'the task queue')
             if ev == 'deq' and t[2] == '-':
                 v.append(('exec_once', 'T%d dequeues from an empty queue (event %d)' % (tid, k)))
+        elif ev == 'qlen':
+            access(tid, 'tasks', False, k, 'the task queue')
+        elif ev in ('tins', 'tfree'):
+            access(tid, 'threads', True, k, 'the thread list')
+        elif ev == 'tlen':
+            access(tid, 'threads', False, k, 'the thread list')
+        elif ev == 'new_ret':
+            new_ret_vc = _VC(me); me[tid] += 1
         elif ev == 'add_call':
             args[int(t[2])] = int(t[3]); pending[tid] = int(t[2])
         elif ev == 'add_ret':
             if tid in pending:
                 addret[pending.pop(tid)] = int(t[2])
+            sub_last[tid] = _VC(me); me[tid] += 1
+        elif ev == 'free_call':
+            for sv in sub_last.values():       # the harness joins the submitters before it calls free
+                me.join(sv)
         elif ev == 'task_start':
             task, a = int(t[2]), int(t[3])
             if task in started:
@@ -197,7 +265,9 @@ def trace_stats(out):
     tids = []
     for ln in out:
         if ln.startswith('T'):
-            tids.append(ln.split()[0])
+            w = ln.split()
+            if w[1] not in ('.', '@'):
+                tids.append(w[0])
     switches = sum(1 for a, b in zip(tids, tids[1:]) if a != b)
     return {'events': len(tids), 'switches': switches, 'threads': len(set(tids)),
             'spurious': sum(1 for l in out if l.endswith('wake spurious')),
@@ -371,7 +441,7 @@ def main(tier, seed, replay_path):
 
 
 def check(rep, rng, tier, seed, exe, ps, broken):
-    n = 520 if tier == 'quick' else 24000
+    n = 2000 if tier == "quick" else 24000
     cfgs = corpus() + gen_configs(rng, n) + (gen_configs(rng, n // 6, big=True) if tier != 'quick' else [])
     rep.cov['rule'] = RULE
     t0 = time.time()
@@ -461,7 +531,7 @@ def check(rep, rng, tier, seed, exe, ps, broken):
             rep.violation(p, txt, False)
         else:
             rep.notes.append({'correspondence_lost': txt, 'replay': p})
-            print('NOTE: ' + txt + ' — theorems no longer cover the changed code; verdict rests on the sampled monitor (replay=%s)' % p)
+            print('NOTE: ' + txt + ' — theorems no longer cover the changed code; verdict rests on the sampled monitor; replay=%s' % p)
     if broken:
         if not hits:
             p = save_replay(ID, 'obligation_0.json', {'broken': broken, 'seed': seed, 'searched_schedules': len(cfgs),
